@@ -100,7 +100,8 @@ def run(ctx):
             ctx.violation(E.name, "exception:" + out["err"], out["msg"], rc, what=f"{E.name}: query failed in the loop, {out['msg']}")
             continue
         if out["problem"] and not (E.subsample and out["problem"][0] == "invalid_batch" and "shape" in out["problem"][1] and _only_short(lp, out)):
-            ctx.violation(E.name, out["problem"][0], out["problem"][1], rc, what=f"{E.name}: {out['problem'][1]}")
+            ctx.violation(E.name, out["problem"][0], out["problem"][1], rc, what=f"{E.name}: {out['problem'][1]}",
+                          tags=PL.case_tags({"X": lp["X"], "y": lp["y"], "cmode": "none", "cand": None}))
             continue
         if E.subsample:
             continue
